@@ -224,6 +224,12 @@ _FORCE = [None]
 def force(v):
     if isinstance(v, ChoiceV): return _FORCE[0](v)
     return v
+def dr(v):
+    """the value behind references, with choice nodes concretised (forking)"""
+    while True:
+        if isinstance(v, Ref): v = v.get()
+        elif isinstance(v, ChoiceV): v = force(v)
+        else: return v
 class FnItem:
     """a function item used as a value (`sep`, `statement::item` passed as an argument)"""
     def __init__(self, fn): self.fn = fn
@@ -580,6 +586,7 @@ class Exec:
     def model(self, callee, a):
         c = strip_gen(callee)
         def opt(v=None): return EnumV("Option", 0, []) if v is None else EnumV("Option", 1, [v])
+
         if re.match(r"^core::slice::<impl \[.*\]>::get$", c):
             s, i = a
             if isinstance(s, Ref): s = s.get()
@@ -973,18 +980,16 @@ def install(ex):
             return clone_coll(a[0].get())
         # ---------------- strings / misc
         if re.match(r"^<(&)?(std::string::String|str|&str) as (ToString>::to_string|Into<.*>>::into|Clone>::clone)$", c):
-            v = a[0]; 
-            while isinstance(v, Ref): v = v.get()
-            return v
+            return dr(a[0])
         if re.match(r"^<&?(std::string::String|str|&str|&std::string::String) as PartialEq(<.*>)?>::eq$", c):
             x, y = a
-            while isinstance(x, Ref): x = x.get()
-            while isinstance(y, Ref): y = y.get()
+            x = dr(x)
+            y = dr(y)
             return x == y
         if re.match(r"^<&?(TyID|usize|i64|bool|isize|&TyID|&usize|&i64) as PartialEq>::eq$", c):
             x, y = a
-            while isinstance(x, Ref): x = x.get()
-            while isinstance(y, Ref): y = y.get()
+            x = dr(x)
+            y = dr(y)
             return key_repr(x) == key_repr(y)
         if c == "std::string::String::as_str": return a[0]
         if c == "core::bool::then":
